@@ -65,6 +65,7 @@ pub fn run_cfg(rec: &J) -> RunCfg {
         input,
         out_budget: if budget >= 0 { Some(budget as usize) } else { None },
         in_fail_at: if fail_at > 0 { Some(fail_at as usize) } else { None },
+        no_events: rec["noevs"] == true,
     }
 }
 
